@@ -4,19 +4,33 @@
 (* each text in every composition into chunks / through every source kind   *)
 (* and observer.  Tok = TRUE uses whole tokens, else single characters.     *)
 EXTENDS JsonText, Json, C02Tokens
-CONSTANTS MaxLen, Alphabet, UseTok
+CONSTANTS MaxLen, Alphabet, Mode
 VARIABLES txt, st, n
 
-C03Tokens == {t \in Tokens : Len(t) <= 12} 
+C03Tokens == {t \in Tokens : Len(t) <= 16}
+\* "atoms" mode: string bodies built from atoms (every escape kind, a surrogate pair, 1-4 byte UTF-8), so that
+\* every position inside an escape / multi-byte sequence becomes a chunk boundary in the harness
+Atoms == { <<97>>, <<92,110>>, <<92,92>>, <<92,34>>, <<92,47>>, <<92,117,48,48,52,49>>, <<92,117,48,48,101,57>>,
+           <<92,117,68,56,51,68,92,117,68,69,48,48>>, <<195,169>>, <<226,130,172>>, <<240,159,152,128>>, <<92,117,100,56,51,100>> }
+Wrap(body, w) == CASE w = 1 -> <<34>> \o body \o <<34>>
+                 [] w = 2 -> <<91,34>> \o body \o <<34,93>>
+                 [] w = 3 -> <<123,34>> \o body \o <<34,58,49,125>>
 Init == txt = <<>> /\ st = Init0 /\ n = 0
 Next == /\ st.m # "dead" /\ n < MaxLen
         /\ n' = n + 1
-        /\ IF UseTok THEN \E t \in C03Tokens : txt' = txt \o t /\ st' = Run(st, t, 1)
-           ELSE \E c \in Alphabet : txt' = Append(txt, c) /\ st' = Step(st, c)
+        /\ IF Mode = "tok" THEN \E t \in C03Tokens : txt' = txt \o t /\ st' = Run(st, t, 1)
+           ELSE IF Mode = "char" THEN \E c \in Alphabet : txt' = Append(txt, c) /\ st' = Step(st, c)
+           ELSE \E t \in Atoms : txt' = txt \o t /\ st' = st
 
+CaseOf(tx, s) == [t |-> tx, acc |-> AcceptAtEof(s), uc |-> s.uc, ut |-> s.ut, tc |-> s.tc, dc |-> s.dc,
+         dep |-> s.dep, m |-> s.m,
+         v |-> IF AcceptAtEof(s) THEN ValueOf(ResultAtEof(s)) ELSE <<"none">>,
+         ev |-> IF AcceptAtEof(s) THEN EventsOf(ResultAtEof(s)) ELSE <<>>]
 Case == [t |-> txt, acc |-> AcceptAtEof(st), uc |-> st.uc, ut |-> st.ut, tc |-> st.tc, dc |-> st.dc,
          dep |-> st.dep, m |-> st.m,
          v |-> IF AcceptAtEof(st) THEN ValueOf(ResultAtEof(st)) ELSE <<"none">>,
          ev |-> IF AcceptAtEof(st) THEN EventsOf(ResultAtEof(st)) ELSE <<>>]
-Emit == PrintT(ToJson(Case))
+Emit == IF Mode = "atoms"
+        THEN \A w \in 1..3 : LET tx == Wrap(txt, w) IN PrintT(ToJson(CaseOf(tx, RunText(tx))))
+        ELSE PrintT(ToJson(Case))
 =============================================================================
